@@ -2017,8 +2017,41 @@ def _minmax_dim(m, func, args, kwargs):
     rows = _reduce_rows(x, dim)
     ft = [to_real(t) for t in m.full_terms(x)]
     ismax = 'max' in str(func)
+    if getattr(m.ctx, 'minmax_decide', False):
+        # (harness option) the position of the extremum is decided (one path per ordering outcome): the index output is then concrete
+        # on the path and may be used for indexing
+        idx = [_decide_order(m, [ft[i] for i in row], descending=ismax)[0] for row in rows]
+        m.write(out[0], [ft[row[k]] for row, k in zip(rows, idx)])
+        with _disable_current_modes():
+            out[1].copy_(torch.tensor(idx, dtype=out[1].dtype).view(out[1].shape))
+        m.clear(out[1])
+        m.ctx.deviated = True
+        return out
     m.write(out[0], [_minmax_terms([ft[i] for i in row], ismax) for row in rows])
     m.write(out[1], [m.ctx.fresh('argidx', 'int') for _ in range(out[1].numel())])
+    return out
+
+
+@handler('aten.searchsorted.Tensor')
+def _searchsorted(m, func, args, kwargs):
+    """1-D sorted sequence, arbitrary values: the insertion index of each value is found by deciding comparisons in sequence order
+    (the count of leading elements <= v resp. < v; equal to the binary search result on an ascending sequence)"""
+    seq, vals = args[0], args[1]
+    right = kwargs.get('right', False) or kwargs.get('side', None) == 'right'
+    if seq.dim() != 1 or kwargs.get('sorter', None) is not None:
+        raise Unsupported('searchsorted on a batched sequence / with sorter')
+    out = func(*args, **kwargs)
+    st = [to_real(t) for t in m.full_terms(seq)]
+    res = []
+    for v in [to_real(t) for t in m.full_terms(vals)]:
+        k = 0
+        while k < len(st) and m.ctx.decide((st[k] <= v) if right else (st[k] < v), None):
+            k += 1
+        res.append(k)
+    with _disable_current_modes():
+        out.copy_(torch.tensor(res, dtype=out.dtype).view(out.shape))
+    m.clear(out)
+    m.ctx.deviated = True
     return out
 
 
